@@ -8,6 +8,7 @@ import (
 	"encoding/json"
 	"fmt"
 	"math/rand"
+	"os"
 	"runtime"
 	"sync"
 	"sync/atomic"
@@ -53,7 +54,11 @@ func TestVerif_Stream(t *testing.T) {
 	rnd := rand.New(rand.NewSource(zzverif.Seed()))
 	var rmu sync.Mutex
 	// timed scenarios: modest parallelism so that scheduling noise stays far below the slack
-	zzverif.Parallel(len(scns), 6, func(sn int) {
+	width := 6
+	if os.Getenv("VERIF_PAR") == "1" { // the leak scenarios count the process's goroutines: one stack at a time
+		width = 1
+	}
+	zzverif.Parallel(len(scns), width, func(sn int) {
 		var sc verifStreamScn
 		if err := json.Unmarshal(scns[sn], &sc); err != nil {
 			panic(err)
